@@ -2,13 +2,15 @@
 
 Part 1 (worker side): Worker.tla -- a worker that receives the termination signal at any
 blocking point stops its task, runs its exit callback once and exits without taking
-further jobs.  Part 2 (pool side: terminate() steps) : checks/shutdown.py.
+further jobs.  Part 1b (parent side): Feed.tla -- told to stop, the task feeder puts nothing
+more.  Part 2 (pool side: terminate() steps) : checks/shutdown.py.
 """
-from checks import workercommon
+from checks import feedcommon, workercommon
 
 
 def main(ctx):
     workercommon.run(ctx, 'C08')
+    feedcommon.run(ctx, 'C08')      # terminate(): the task feeder stops feeding at once
     try:
         from checks import shutdown
     except ImportError:
